@@ -120,7 +120,7 @@ pub struct Outcome {
 fn requests_memory(op: &Op) -> bool {
     match op {
         Op::Alloc { size, .. } => *size > 0,
-        Op::Typed { op, .. } => !matches!(op, TypedOp::SliceU8(0) | TypedOp::SliceU64(0) | TypedOp::SliceArr3(0) | TypedOp::SliceForU64(0) | TypedOp::AllocSliceCopyU8(0) | TypedOp::AllocUninitSliceU8(0) | TypedOp::Layout(0, _) | TypedOp::SliceOverflow),
+        Op::Typed { op, .. } => !matches!(op, TypedOp::SliceU8(0) | TypedOp::SliceU64(0) | TypedOp::SliceArr3(0) | TypedOp::SliceForU64(0) | TypedOp::AllocSliceCopyU8(0) | TypedOp::AllocUninitSliceU8(0) | TypedOp::Layout(0, _) | TypedOp::SliceOverflow | TypedOp::AllocUnit),
         Op::Nop | Op::Enter(_) | Op::Exit | Op::ExitUnwind | Op::Reset | Op::ResetToStart | Op::Dealloc { .. } | Op::Orig(_) => false,
         Op::Reserve { n, .. } => *n > 0,
         _ => true,
@@ -141,6 +141,7 @@ fn fmt_inflight(p: *const ()) -> String {
 pub fn run_history(entry: &ConfigEntry, ops: &[Op], params: &RunParams, groups: u32, last_only: bool, probes: bool) -> Outcome {
     slab::select(0);
     slab::reset(0, params.slab);
+    let _ = crash::take_last_panic();
     let opts = RunOpts { groups, h: params.h, last_only, raw_roundtrip: params.roundtrip, probes };
     let mut exec = Exec::new(ops, &opts);
     let ctx = InflightCtx { cfg: &entry.cfg, params, ops };
